@@ -1,6 +1,7 @@
 /* C15 — certificates, requests and CRLs parse as issued and verify only as issued. */
 #include <stdio.h>
 #include <gmssl/x509.h>
+#include <gmssl/x509_alg.h>
 #include <gmssl/x509_req.h>
 #include <gmssl/x509_crl.h>
 #include "vh.h"
@@ -22,7 +23,7 @@ static void alg_relabel(const char *what, const uint8_t *obj, size_t len, const 
 	int n = 0; for (int oid = 1; oid < 400; oid++) { if (oid == OID_sm2sign_with_sm3 || !x509_signature_algor_name(oid)) continue; uint8_t ab[64], *p = ab; size_t abl = 0; if (x509_signature_algor_to_der(oid, &p, &abl) != 1) continue; n++;
 		uint8_t *body = (uint8_t *)malloc(len + 64), *m = (uint8_t *)malloc(len + 80); size_t bl = 0; memcpy(body, t0, th + tl); bl = th + tl; memcpy(body + bl, ab, abl); bl += abl; memcpy(body + bl, s0, sh + sl); bl += sh + sl; size_t ml = der_put_tlv(m, 0x30, body, bl); (void)a0;
 		int r = x509_signed_verify(m, ml, key, IDS[sid].p, IDS[sid].n); vh_eval(vh_hash(obj, len, 50000 + oid));
-		if (r == 1) { char k2[160]; snprintf(k2, sizeof k2, "C15:%s:verifies-with-signatureAlgorithm-relabelled:%s", what, x509_signature_algor_name(oid)); vh_viol(k2, "\"object\":\"%s\"", vh_hex(m, ml > 300 ? 300 : ml)); } free(body); free(m); }
+		if (r == 1) { char k2[160]; snprintf(k2, sizeof k2, "C15:%s:verifies-with-signatureAlgorithm-relabelled:%s", what, x509_signature_algor_name(oid)); vh_viol(k2, "\"object\":\"%s\"", vh_hex(m, ml > 250 ? 250 : ml)); } free(body); free(m); }
 	if (n < 5) vh_harness_error("fewer than 5 other signature algorithms found in the library's table");
 }
 static void bitflips(const char *what, const uint8_t *obj, size_t len, const SM2_KEY *key, int sid, int step) {
